@@ -259,7 +259,7 @@ theorem C07_push_prefix (deps : List Cols.Dep) (pop : UOp) (prt rt : Rt) (pre : 
     (h : pushdown deps (.un pop prt (.un (.addPrefix pre) rt t)) = some t') :
     declT t' = declT (.un pop prt (.un (.addPrefix pre) rt t)) := push_prefix deps pop prt rt pre t t' p hp cols idx hS hn h
 
-/-- FULL STATEMENT (false on the current tree, C04_suffix_counterexample): for the empty suffix as well -/
+/-- (the hypothesis of a non-empty suffix is no longer needed on the C04 side since D38; kept here as stated) -/
 theorem C07_push_suffix_partial (deps : List Cols.Dep) (pop : UOp) (prt rt : Rt) (suf : String) (hsuf : suf.length ≠ 0)
     (t t' : Tree) (p : Cols.Parent)
     (hp : parentOf pop = some p) (cols : List Col) (idx : List Lvl) (hS : declT t = .frame cols idx)
